@@ -43,6 +43,9 @@ type Run struct {
 	obls []*Obligation
 	owner map[*Obligation]*FnCtx
 	cg    *CallGraph
+	bounded []*BoundedSpec
+	tier  string
+	prop  string
 }
 
 func generate(repo string) (*Run, error) {
@@ -178,6 +181,7 @@ func cmdCheck(args []string) int {
 	if *tier == "thorough" {
 		timeout = 60 * time.Second
 	}
+	r.tier, r.prop = *tier, prop
 	var sel []*Obligation
 	for _, ob := range r.obls {
 		if prop == "all" || hasTag(ob.Tags, prop) {
